@@ -8,7 +8,7 @@ import ast, re
 from fractions import Fraction
 
 ESC = re.compile(r'\x1b\[[\d;]*m')
-NOTIMEOBS = -1
+NOTIMEOBS = -20000000      # "no lifespan shown" (units of 1e-4 s; a shown lifespan can be negative when log times go back)
 
 
 def strip_color(s):
